@@ -48,4 +48,10 @@ def histQuantilePos (c : Counts) (goal : Nat) : Option Rat :=
     | some (i, g, cnt) => some ((i : Rat) + (g : Rat) / (cnt : Rat))
     | none => none
 
+/-- every integer between ⌊lo⌋ and ⌊hi⌋: the bins a sample may fall into when its real position is only
+known to lie in [lo, hi] -/
+def candsRange (lo hi : Rat) : List Int :=
+  let a := lo.floor; let c := hi.floor
+  (List.range ((c - a).toNat + 1)).map fun (i : Nat) => a + (i : Int)
+
 end MV.Hist
